@@ -20,23 +20,25 @@ class FilteredConfigParser(ObjectProxy):
       the lists returned by properties such as `pair`, `eam_density` and `eam_embed`.
     :param include: Species labels that should be returned by `pair`, `eam_density` and `eam_embed` functions."""
     ObjectProxy.__init__(self, config_parser)
+    # NOTE: attributes of the proxy itself must be prefixed _self_ otherwise wrapt stores them on
+    # the wrapped ConfigParser, where they would be shared by every FilteredConfigParser wrapping it.
 
     if exclude and include:
       raise ValueError("Both exclude and include arguments specified. Only one can be used at one time.")
 
     if exclude:
-      self._species_list = exclude
-      self._exclude_flag = True
+      self._self_species_list = exclude
+      self._self_exclude_flag = True
     else:
-      self._species_list = include
-      self._exclude_flag = False
+      self._self_species_list = include
+      self._self_exclude_flag = False
     
   def _check_tuple(self, check_tuple):
     for v in check_tuple:
-      v_in = v in self._species_list
-      if self._exclude_flag and v_in:
+      v_in = v in self._self_species_list
+      if self._self_exclude_flag and v_in:
         return False
-      elif not self._exclude_flag and not v_in:
+      elif not self._self_exclude_flag and not v_in:
         return False
     return True
 
